@@ -209,6 +209,7 @@ class Facts:
                 if e == "fn":
                     if o.get("body") or o.get("inits"):
                         refnames.normalise(o)
+                        refnames.canonical_equalities(o)
                     self.fns.append(o)
                 elif e == "rec":
                     # keep the definition with most fields (there is only one per q unless templates/specs)
